@@ -1,0 +1,21 @@
+//go:build verif
+
+// Contracts for package memoize, checked by /verif/govc (comment-only file; no code).
+package memoize
+
+// Lock discipline of the process-wide pattern cache (C06): every function returns holding exactly the mutexes it
+// was entered with (so no entry stays locked behind a finished call, whatever path is taken), locks only a mutex it
+// does not hold and unlocks only one it holds (preconditions of sync.Mutex in /verif/specs/stdlib.spec).
+//@ define locksBalanced() bool := forall mx *sync.Mutex :: mx.held == old(mx.held)
+
+//@ func (*Memoizer).addOwner props C06,C13
+//@   requires e != nil && !e.mu.held
+//@   modifies inferred
+//@   ensures balanced: forall mx *sync.Mutex :: mx.held == old(mx.held)
+//@   ensures result == !old(e.deleted)
+
+//@ func Release$1 props C06,C13
+//@   requires entryNotHeld: typeof(value) == tag("*entry") ==> !payload(value, "*entry").mu.held
+//@   modifies inferred
+//@   ensures balanced: forall mx *sync.Mutex :: mx.held == old(mx.held)
+//@   ensures keepsGoing: result
